@@ -267,7 +267,7 @@ class TaskScenario(ScenarioData):
             else:
                 continue
             if self._isSelfOrAncestor(pred) and gapduration and not onstart:
-                gap_hours = max(gap_hours, self._parse_duration(gapduration))
+                gap_hours = max(gap_hours, self._parse_duration(gapduration, calendar=True))
         return gap_hours
 
     def _getSuccessorsWithMaxGap(self) -> list[tuple[Any, Any, Any]]:
@@ -395,8 +395,8 @@ class TaskScenario(ScenarioData):
             successor_earliest = self._getSuccessorEarliestStart(successor)
 
             # Parse maxgapduration
-            self._parse_duration(maxgap_str)
-            gap_hours = self._parse_duration(gap_str) if gap_str else 0
+            self._parse_duration(maxgap_str, calendar=True)
+            gap_hours = self._parse_duration(gap_str, calendar=True) if gap_str else 0
 
             # This task must end no more than maxgap_hours before successor can start
             # Required end time: successor_earliest - gap_hours (to satisfy gapduration)
@@ -528,7 +528,7 @@ class TaskScenario(ScenarioData):
                             # Add gap if specified
                             if gapduration:
                                 # gapduration is calendar time (e.g., "4h" = 4 hours)
-                                gap_hours = self._parse_duration(gapduration)
+                                gap_hours = self._parse_duration(gapduration, calendar=True)
                                 from datetime import timedelta
 
                                 dep_time = dep_time + timedelta(hours=gap_hours)
@@ -608,7 +608,7 @@ class TaskScenario(ScenarioData):
                             if pred_start:
                                 # Apply gapduration - A must end (gapduration) before B starts
                                 if gapduration:
-                                    gap_hours = self._parse_duration(gapduration)
+                                    gap_hours = self._parse_duration(gapduration, calendar=True)
                                     from datetime import timedelta
 
                                     pred_start = pred_start - timedelta(hours=gap_hours)
@@ -979,9 +979,12 @@ class TaskScenario(ScenarioData):
         end_time, _ = self._calculatePreciseEndTimeAndRelease(required_effort, effort_before_slot, forward)
         return end_time
 
-    def _parse_duration(self, duration_str: Any) -> float:
+    def _parse_duration(self, duration_str: Any, calendar: bool = False) -> float:
         """
         Parse a duration string like '4h', '2d', '1w', '30min' into hours.
+
+        Working time by default (a day is 8 hours, a week 40); calendar=True is for
+        durations that are calendar time, such as gapduration (a day is 24 hours).
         """
         if not duration_str:
             return 0
@@ -993,7 +996,10 @@ class TaskScenario(ScenarioData):
             return 0
         num = float(match.group(1))
         unit = match.group(2) or "h"
-        multipliers = {"min": 1 / 60, "h": 1, "d": 8, "w": 40, "m": 160, "y": 1920}
+        if calendar:
+            multipliers = {"min": 1 / 60, "h": 1, "d": 24, "w": 168, "m": 30.4167 * 24, "y": 8760}
+        else:
+            multipliers = {"min": 1 / 60, "h": 1, "d": 8, "w": 40, "m": 160, "y": 1920}
         return num * multipliers.get(unit, 1)
 
     def isWorkingTime(self, slotIdx: int) -> bool:
